@@ -44,6 +44,19 @@ func TestVerifC16AddPendingStorm(t *testing.T) {
 		window := rapid.SampledFrom([]int{1, 2, 4, 16}).Draw(t, "window") // local shuffle width
 		seed := rapid.Uint64().Draw(t, "seed")
 		preloaded := rapid.IntRange(0, 3).Draw(t, "preloaded") == 0 // some blobs are known from a loaded (final) index
+		// intermediate index files: an index counts as full from that many blobs on (0 = never), so
+		// that StorePack finalizes, "uploads" and merges indexes while other savers store packs -
+		// the C14 side of this storm: no blob of an uploaded pack may drop out of the index
+		fullFrom := rapid.SampledFrom([]uint{0, 1, 2, 5, 20, 100}).Draw(t, "fullFrom")
+		oldFull := Full
+		defer func() { Full = oldFull }()
+		if fullFrom > 0 {
+			Full = func(idx *Index) bool {
+				return idx.Len(restic.DataBlob)+idx.Len(restic.TreeBlob) >= fullFrom
+			}
+		} else {
+			Full = func(*Index) bool { return false }
+		}
 
 		handles := make([]restic.BlobHandle, nblobs)
 		r := rand.New(rand.NewPCG(seed, 0xc16))
@@ -144,7 +157,11 @@ func TestVerifC16AddPendingStorm(t *testing.T) {
 		}
 		for i, h := range handles {
 			if entries[h] != 1 {
-				t.Fatalf("blob %d (%v) has %d index entries after the storm, want 1", i, h, entries[h])
+				t.Fatalf("blob %d (%v) has %d index entries after the storm, want 1 (%d savers, %d blobs, %d per pack, index full from %d blobs, %d index files saved)",
+					i, h, entries[h], workers, nblobs, perPack, fullFrom, saver.saved.Load())
+			}
+			if _, ok := mi.LookupSize(h); !ok {
+				t.Fatalf("blob %d (%v) of an uploaded pack is not found by LookupSize", i, h)
 			}
 		}
 		if len(entries) != nblobs {
@@ -152,9 +169,10 @@ func TestVerifC16AddPendingStorm(t *testing.T) {
 		}
 		key := ""
 		if workers >= 2 {
-			key = fmt.Sprintf("pendingstorm|%d|%d|%d|%d|%x|%v", workers, nblobs, perPack, window, seed, preloaded)
+			key = fmt.Sprintf("pendingstorm|%d|%d|%d|%d|%x|%v|%d", workers, nblobs, perPack, window, seed, preloaded, fullFrom)
 		}
-		st.Case(key, fmt.Sprintf("pendingstorm:workers=%d", workers), fmt.Sprintf("pendingstorm:preloaded=%v", preloaded))
+		st.Case(key, fmt.Sprintf("pendingstorm:workers=%d", workers), fmt.Sprintf("pendingstorm:preloaded=%v", preloaded),
+			fmt.Sprintf("pendingstorm:intermediate-index-files=%v", saver.saved.Load() > 0))
 		st.Evals(nblobs)
 		if st.WantSample() {
 			st.Sample(map[string]any{"part": "pending-storm", "workers": workers, "blobs": nblobs, "blobs_per_pack": perPack, "packs": packSeq.Load(), "index_files_saved": saver.saved.Load()})
